@@ -250,3 +250,33 @@ Theorem C01_progress_create : forall lay par x pv s0, Fs.fs_inv_weak s0 -> Fs.lo
   snd (StorageOps.machine_run Prog.no_fault (StorageOps.unit_prog lay (StorageOps.UCreate (par ++ [x]) None pv)) (Prog.start s0)) = Prog.ONorm.
 Proof. exact ReprProgress.create_progress. Qed.
 Print Assumptions C01_progress_create.
+
+(* Whole request histories, UNCONDITIONALLY (default cache layout lay0).  CL s: a well-formed tree whose reserved paths are
+   clean (no temp residue; the cache folders are directories and their entries files) -- what fault-free runs leave
+   behind; ReprClean.CL_empty: the empty storage folder is clean.  Every fault-free storage operation the handlers issue
+   ends normally from a clean tree and leaves a clean tree (progress), so for every covered history there are storage
+   operations whose fault-free run ends in a tree representing exactly the ideal store after the history. *)
+Require RV.Proofs.ReprClean RV.Proofs.ReprTotal.
+Theorem C01_refine_history : forall cfg pol user rs s sigma sigma' outs,
+  Repr.R s sigma -> store_inv sigma -> ReprClean.CL s -> Forall ReprHandle.covered rs ->
+  run_history cfg pol user sigma rs = (sigma', outs) ->
+  exists us s', ReprHistory.run_units ReprProgress.lay0 us s = Some s' /\ Repr.R s' sigma' /\ ReprClean.CL s'.
+Proof. exact ReprTotal.history_total. Qed.
+Print Assumptions C01_refine_history.
+
+Theorem C01_refine_history_from_empty : forall cfg pol user rs sigma' outs,
+  Forall ReprHandle.covered rs ->
+  run_history cfg pol user empty_store rs = (sigma', outs) ->
+  exists us s', ReprHistory.run_units ReprProgress.lay0 us ReprExample.ex_s0 = Some s' /\ Repr.R s' sigma' /\ ReprClean.CL s'.
+Proof. exact ReprTotal.history_total_empty. Qed.
+Print Assumptions C01_refine_history_from_empty.
+
+(* One request, with progress: as C01_refine_handle, each stage now also ends normally from a clean tree. *)
+Theorem C01_refine_handle_total : forall cfg pol user s sigma r sigma' resp,
+  Repr.R s sigma -> store_inv sigma -> Fs.fs_inv_weak s -> ReprHandle.covered r ->
+  handle cfg pol user sigma r = (sigma', resp) ->
+  let sigma1 := ensure_home pol sigma user in
+  ReprTotal.pstep_ok sigma sigma1 s /\ store_inv sigma1 /\
+  (forall s1, Repr.R s1 sigma1 -> Fs.fs_inv_weak s1 -> ReprTotal.pstep_ok sigma1 sigma' s1) /\ store_inv sigma'.
+Proof. exact ReprTotal.handle_total. Qed.
+Print Assumptions C01_refine_handle_total.
